@@ -297,10 +297,17 @@ def run_unsupported(report):
         "PaintComposite(multiply)": dict(Format=F.PaintComposite, CompositeMode="multiply", SourcePaint=glyph, BackdropPaint=dict(Format=F.PaintGlyph, Glyph="tri", Paint=solid)),
         "PaintComposite(src_in, non-black)": dict(Format=F.PaintComposite, CompositeMode="src_in", SourcePaint=glyph, BackdropPaint=dict(Format=F.PaintSolid, PaletteIndex=1, Alpha=0.5)),
     }
+    # graphs over the supported formats in which a PaintGlyph clips a subtree instead of carrying a fill (F25)
+    clip_nesting = {
+        "PaintGlyph over PaintColrGlyph": dict(Format=F.PaintGlyph, Glyph="sq", Paint=dict(Format=F.PaintColrGlyph, Glyph="base2")),
+        "PaintGlyph over PaintColrLayers": dict(Format=F.PaintGlyph, Glyph="sq", Paint=dict(Format=F.PaintColrLayers, Layers=[dict(Format=F.PaintGlyph, Glyph="tri", Paint=dict(Format=F.PaintSolid, PaletteIndex=1, Alpha=1.0)), glyph])),
+        "PaintGlyph over PaintGlyph": dict(Format=F.PaintGlyph, Glyph="sq", Paint=dict(Format=F.PaintGlyph, Glyph="tri", Paint=dict(Format=F.PaintSolid, PaletteIndex=1, Alpha=1.0))),
+    }
+    unsupported.update(clip_nesting)
     pal = [[(0, 0, 0, 1.0), (1, 0, 0, 1.0)]]
     for name, g in unsupported.items():
         try:
-            font = build_font({"base0": g}, pal)
+            font = build_font({"base0": g, "base2": dict(Format=F.PaintGlyph, Glyph="bar", Paint=dict(Format=F.PaintSolid, PaletteIndex=1, Alpha=1.0))} if name in clip_nesting else {"base0": g}, pal)
         except Exception as ex:
             report.notes.setdefault("unsupported_not_buildable", []).append(f"{name}: {type(ex).__name__}")
             continue
@@ -323,8 +330,10 @@ def run_unsupported(report):
         report.count(("unsupported", name), True)
         report.hist("unsupported.outcome", f"{name}: {outcome}")
         if outcome == "silent":
-            report_failure(report, f"unsupported_{name}", dict(kind="e2e", paint=name, problem="a paint format outside the supported set was converted without error or warning"))
-            return
+            report_failure(report, f"unsupported_{name}", dict(kind="e2e", paint=name, problem="a paint graph the converter cannot express was converted without error or warning"),
+                           "F25-paintglyph-as-clip" if name in clip_nesting else None)
+            if report.violations:
+                return
 
 
 def _ot_graph_lit(font, paint, palette):
